@@ -11,7 +11,7 @@ import errno
 import os
 import signal
 
-from common import pack, ser_list, ser_n, ser_bool, run_packed_cases, clist, setup_impl_path
+from common import HARNESS_FAULT, raised_in_harness, pack, ser_list, ser_n, ser_bool, run_packed_cases, clist, setup_impl_path
 
 IMPORTS = "From Conductor Require Import Lib.Str Lib.Cmp Model.Reaper."
 DEFS = """
@@ -217,7 +217,7 @@ def run_schedule(schedule):
     except Exception as e:  # pylint: disable=broad-except
         import traceback
 
-        crash = "%s: %s\n%s" % (type(e).__name__, e, traceback.format_exc()[-800:])
+        crash = "%s%s: %s\n%s" % (HARNESS_FAULT + " " if raised_in_harness(e) else "", type(e).__name__, e, traceback.format_exc()[-800:])
         w.final_rcs = list(getattr(helper, "_returncodes", []))
     finally:
         for (mod, name), val in saved.items():
@@ -298,6 +298,10 @@ def protocol_part(chk, tier):
         exits = [(e[1], e[2] if e[2] < 128 else e[2] - 128) for e in sched if e[0] == "exit"]
         happened = [(e[1], e[2]) for e in w.log if e[0] == "exit"]
         problems = []
+        if w.crash and w.crash.startswith(HARNESS_FAULT):
+            chk.violation("tie-broken", "the simulated-kernel harness no longer fits SigchldHelper's internals: %s" % w.crash[:300],
+                          {"theorem_or_tie": "refinement harness (harness/reaper_model.py) vs utils/sigchld.py internals", "detail": w.crash}, found_input=False)
+            return
         if w.crash:
             problems.append("SigchldHelper raised %s" % w.crash[:300])
         else:
